@@ -249,20 +249,20 @@ def run(run):
         run.count('functions', len(F.fns))
         plans = facts.cfg_has(c, 'P')
         for fn in F.find('R_', 'update'):
-            check_entry(run, F, E, fn, UPDATE_SEQ, plans)
+            run.guard('check entry', check_entry, run, F, E, fn, UPDATE_SEQ, plans)
         for fn in F.find('R_', 'react'):
-            check_entry(run, F, E, fn, REACT_SEQ, plans)
+            run.guard('check entry', check_entry, run, F, E, fn, REACT_SEQ, plans)
         for fn in F.find('C_'):
             if fn.m in HEAD_FIRST or fn.m in SUB_FIRST:
-                check_region(run, F, E, fn)
-        check_event_by_ref(run, F, E)
-        check_query(run, F, E)
-        user_once(run, F, E)
+                run.guard('check region', check_region, run, F, E, fn)
+        run.guard('check event by ref', check_event_by_ref, run, F, E)
+        run.guard('check query', check_query, run, F, E)
+        run.guard('user once', user_once, run, F, E)
         ns, nl = dispatch_rules.check_dispatchers(run, F, E, 'C05.b')
         facts.drop(F)
         cfgmod.clear_cache()
     from gen import static_units
-    static_units.must_not_compile(run, 'C05.d')
+    run.guard('must not compile', static_units.must_not_compile, run, 'C05.d')
     run.floor('C05.a', 100)
     run.floor('C05.b', 500)
     run.floor('C05.c', 50)
